@@ -128,6 +128,12 @@ New == /\ IsEv("new")
               b2 == IF E.b = 4 THEN With(boxof, E.d, E.a) ELSE boxof
           IN Step(o2, e2, [stk EXCEPT ![0] = E.a], tls, b2, {})        \* the mutator holds the fresh object (slot 0)
 
+(* a Ref filled outside the collector and then registered through set(gc, holder, root flag): managed from that call on *)
+Adopt == /\ IsEv("adopt")
+         /\ LET o2 == With(ob, E.a, [kind |-> 3, mode |-> E.c, live |-> TRUE])
+                s2 == [k \in DOMAIN stk |-> IF k = E.d THEN E.a ELSE IF stk[k] = E.b THEN 0 ELSE stk[k]]
+            IN Step(o2, ed \cup {<<E.a, 0, E.b>>}, s2, tls, boxof, {})
+
 Link == IsEv("link") /\ LET e1 == DropLabel(E.a, IF ob[E.a].kind = 3 THEN 0 ELSE E.b)
                             lb == IF ob[E.a].kind = 3 THEN 0 ELSE E.b
                         IN Step(ob, IF E.c = 0 THEN e1 ELSE e1 \cup {<<E.a, lb, E.c>>}, stk, tls, boxof, {})
@@ -167,7 +173,7 @@ Exit == /\ IsEv("exit")
               /\ \A i \in LiveIds(ob) : (ob[i].mode = 0 /\ ob[i].kind \in {1, 2}) => i \in ToSet(E.fin))
         /\ UNCHANGED <<ob, ed, stk, tls, boxof, fins>>
 
-Next == \/ Reset \/ End \/ New \/ Link \/ CPush \/ CPop \/ CSet \/ CRem \/ KSet \/ KRem \/ Root \/ Tls \/ UnTls
+Next == \/ Reset \/ End \/ New \/ Adopt \/ Link \/ CPush \/ CPop \/ CSet \/ CRem \/ KSet \/ KRem \/ Root \/ Tls \/ UnTls
         \/ Del \/ Collect \/ StopStart \/ Chain \/ Bulk \/ Exit
 Spec == Init /\ [][Next]_vars
 
